@@ -707,6 +707,26 @@ def _native_standins(vk):
                 vk.bounded_standin(f"{nm}: stress-free reference at the virgin state (native float)", "F = I", 1, float(np.abs(P0).max()) < 1e-6, f"max |P(I)| = {float(np.abs(P0).max()):.2e}")
             except Exception as e:  # pragma: no cover
                 vk.bounded_standin(f"{nm}: native stand-in failed", "-", 0, False, f"{type(e).__name__}: {str(e)[:120]}")
+        # non-virgin state: a uniaxial step followed by a simple-shear step (principal axes of C and of the increment
+        # of C do not coincide) -- the Kirchhoff stress must still be symmetric and the response objective
+        for nm2, fac2 in (("lagrange.morph", lambda: mt.Material(TL.morph, nstatevars=13, p=pm)), ("jax.lagrange.morph", lambda: _jax64(lambda: mj.Material(__import__("felupe.constitution.jax.models.lagrange", fromlist=["morph"]).morph, nstatevars=13, p=pm)))):
+            try:
+                um = fac2()
+                worst_s, worst_o = 0.0, 0.0
+                for lam, gam in ((1.5, 0.4), (1.2, -0.3), (2.0, 0.2)):
+                    F1 = np.diag([lam, lam**-0.5, lam**-0.5]).reshape(3, 3, 1, 1)
+                    sv1 = np.asarray(um.gradient([F1, sv_morph])[1])
+                    F2 = (np.array([[1.0, gam, 0.0], [0.0, 1.0, 0.0], [0.0, 0.0, 1.0]]) @ F1[..., 0, 0]).reshape(3, 3, 1, 1)
+                    P = np.asarray(um.gradient([F2, sv1])[0])
+                    tau = M.mm(P, M.tr_(F2))
+                    worst_s = max(worst_s, float(np.abs(tau - M.tr_(tau)).max() / np.abs(tau).max()))
+                    Qm = rotm().reshape(3, 3, 1, 1)
+                    PQ = np.asarray(um.gradient([M.mm(Qm, F2), sv1])[0])
+                    worst_o = max(worst_o, float(np.abs(PQ - M.mm(Qm, P)).max() / np.abs(P).max()))
+                vk.bounded_standin(f"{nm2}: Kirchhoff symmetry after a non-coaxial two-step history (native float)", "3 histories: uniaxial stretch then simple shear", 3, worst_s < 1e-6, f"max |tau - tau^T| / |tau| = {worst_s:.2e}")
+                vk.bounded_standin(f"{nm2}: objectivity after a non-coaxial two-step history (native float)", "3 histories: uniaxial stretch then simple shear, random rotation", 3, worst_o < 1e-6, f"max |P(QF) - Q P(F)| / |P| = {worst_o:.2e}")
+            except Exception as e:  # pragma: no cover
+                vk.bounded_standin(f"{nm2}: native history stand-in failed", "-", 0, False, f"{type(e).__name__}: {str(e)[:120]}")
     vk.note("MORPH Lagrange models (expm / eigvalsh of general arguments): objectivity and Kirchhoff symmetry follow from the lagrange wrapper contract if S depends on F through F^T F only; for the concrete functions this is only checked by the bounded native stand-ins")
     vk.note("not decided (bounded stand-ins only): stress-free reference and isotropy of alexander (hand-built dual numbers, no energy value), stress-free reference of the micro-sphere models (21-point float sphere rule: holds to table accuracy only); micro-sphere models are excluded from the isotropy clause by the property")
 
